@@ -357,3 +357,10 @@ def t_configure_frozen_terminal(world, oid='C07.e.frozen'):
 _t_cft = tasks
 def tasks(tier):
     return _t_cft(tier) + [('configure_frozen_terminal', t_configure_frozen_terminal)]
+
+
+# ---------------------------------------------------------------- C07.h: a killed bank refuses every instruction kind (shared with C14.a: the bank-state table)
+_t_c07h = tasks
+def tasks(tier):
+    import specs.C14 as C14
+    return _t_c07h(tier) + [('bank_state_table', renamed(C14.t_bank_state, 'C14.a', 'C07.h'))]
